@@ -44,8 +44,29 @@ func ValText(o object.Object, depth int) string {
 		}
 		sb.WriteString(")")
 		return sb.String()
+	case *object.Set:
+		var sb strings.Builder
+		sb.WriteString("(set")
+		for _, it := range v.SortedItems() {
+			sb.WriteString(" " + ValText(it, depth+1))
+		}
+		sb.WriteString(")")
+		return sb.String()
+	case *object.Map:
+		var sb strings.Builder
+		sb.WriteString("(map")
+		for _, k := range v.SortedKeys() {
+			sb.WriteString(" (str " + Hex(k) + ") " + ValText(v.Get(k), depth+1))
+		}
+		sb.WriteString(")")
+		return sb.String()
 	case *object.Function:
 		return "(fn)"
+	case *object.Error: // an error VALUE: its class (the models do not know the messages the runtime makes)
+		if v.Value().Error() == "" {
+			return "(error error)"
+		}
+		return "(error " + ErrClass(v.Value().Error()) + ")"
 	}
 	if o == nil {
 		return "(go-nil)"
@@ -105,9 +126,19 @@ func c01Nontrivial(p *N) bool {
 	return forms >= 3
 }
 
+// c01Opts draws the generator options of one program (the order of the draws is part of the seed's meaning).
+func c01Opts(r *RNG, quick bool) GenOpts {
+	return GenOpts{MaxStmts: 3 + r.Intn(3), MaxDepth: 2 + r.Intn(3), Budget: 40 + r.Intn(260), Funcs: r.Chance(70), Closures: true,
+		Containers: r.Chance(70), Strings: r.Chance(60), CtlHeavy: r.Chance(30), NoCtlInSwitch: false, Shadow: true,
+		TryDefer: r.Chance(45), Pipes: r.Chance(40), Sets: r.Chance(40)}
+}
+
 func runC01(e *Env) {
 	e.R.Rule = "programs from the structured generator over the core grammar (statement forms x expression forms, size budget 40-300 nodes " +
-		"quick / up to 600 thorough), rendered to text and evaluated by the real pipeline; oracle = Lean reference semantics on the " +
+		"quick / up to 600 thorough; per program, with probability 40-45 % each: error()/try() with handler chains and defer inside functions, " +
+		"pipes, set / one-entry map literals with index, assignment and in, string index and slice), rendered to text and evaluated by the real " +
+		"pipeline, plus directed programs (evaluation order, LIFO order of deferred calls, errors in and around deferred calls, what try catches); " +
+		"oracle = Lean reference semantics on the " +
 		"generator's tree; distinct by canonical S-expression; non-trivial when >= 3 statement forms occur"
 	nProg := 3000
 	if !e.Quick {
@@ -159,8 +190,8 @@ func runC01(e *Env) {
 		if !e.Quick && r.Chance(20) {
 			budget = 300 + r.Intn(300)
 		}
-		o := GenOpts{MaxStmts: 3 + r.Intn(3), MaxDepth: 2 + r.Intn(3), Budget: budget, Funcs: r.Chance(70), Closures: true,
-			Containers: r.Chance(70), Strings: r.Chance(60), CtlHeavy: r.Chance(30), NoCtlInSwitch: false, Shadow: true}
+		o := c01Opts(r, e.Quick)
+		o.Budget = budget
 		p := GenProgram(r, o)
 		src := Src(p)
 		out := EvalSrc(src, 5*time.Second)
@@ -194,6 +225,57 @@ func evalOrderGuard(p *N) string {
 			g = "C01-slice-evaluates-stop-first"
 		case x.K == "setitem" && x.S != "=" && hasCall(x.C[1]):
 			g = "C01-compound-index-evaluated-twice"
+		case x.K == "set":
+			for _, it := range x.C {
+				if it.K == "list" || it.K == "set" || it.K == "map" || it.K == "func" {
+					g = "C01-set-literal-unhashable-item-not-raised"
+				}
+			}
+		case x.K == "for3" || x.K == "forcond" || x.K == "forever" || x.K == "forrange" || x.K == "forin":
+			// a function literal in the loop body that uses a variable declared in that body (and may outlive the iteration)
+			body := x.C[len(x.C)-1]
+			declared := map[string]bool{}
+			for _, st := range body.C {
+				if st.K == "var" {
+					declared[st.S] = true
+				}
+			}
+			Walk(body, func(y *N, path []*N) {
+				if y.K != "id" || !declared[y.S] {
+					return
+				}
+				for _, anc := range path {
+					if anc.K == "func" {
+						g = "C01-loop-body-variable-shared"
+					}
+				}
+			}, nil)
+		case x.K == "pipe":
+			// a call nested inside the arguments of a piped call (not inside a function literal: that is another code object)
+			for _, st := range x.C[1:] {
+				if st.K != "call" {
+					continue
+				}
+				for _, a := range st.C[1:] {
+					nested := false
+					var rec func(y *N)
+					rec = func(y *N) {
+						if y.K == "func" {
+							return
+						}
+						if y.K == "call" || y.K == "mcall" {
+							nested = true
+						}
+						for _, c := range y.C {
+							rec(c)
+						}
+					}
+					rec(a)
+					if nested {
+						g = "C01-pipe-nested-call-not-called"
+					}
+				}
+			}
 		}
 	}, nil)
 	return g
@@ -201,7 +283,7 @@ func evalOrderGuard(p *N) string {
 
 // c01Directed: operands with observable side effects (a logging function) in every operand
 // position: the printed order is the evaluation order.
-func c01Directed(e *Env) {
+func c01DirectedPrograms() []*N {
 	lg := n("expr", ns("func", "lg", n("params", ns("param", "v")), nBlock(n("expr", nCall(nId("print"), nId("v"))), n("return", nId("v")))))
 	call := func(k int64) *N { return nCall(nId("lg"), nInt(k)) }
 	lst := nVar("l", n("list", nInt(1), nInt(2), nInt(3), nInt(4)))
@@ -226,7 +308,11 @@ func c01Directed(e *Env) {
 		mk(n("expr", n("slice", nId("l"), call(1), call(3)))),
 		mk(ns("setitem", "+=", nId("l"), call(1), call(5)), n("expr", nId("l"))),
 	}
-	for _, p := range progs {
+	return append(progs, c01DirectedErrors()...)
+}
+
+func c01Directed(e *Env) {
+	for _, p := range c01DirectedPrograms() {
 		src := Src(p)
 		goOut := goOutcome(EvalSrc(src, 5*time.Second))
 		model := e.O.Ask("C01", "eval", Sexp(p))
@@ -235,6 +321,9 @@ func c01Directed(e *Env) {
 		e.R.H("directed_eval_order", "cases")
 		if vm != goOut {
 			e.R.Mismatch(src, strings.ReplaceAll(goOut, "\t", " "), strings.ReplaceAll(vm, "\t", " "), "vm.Run vs C01.runCodes on a directed evaluation-order program")
+		}
+		if strings.HasPrefix(goOut, "err\tcompile\t") && strings.HasPrefix(model, "err\tcompile\t") {
+			continue // rejected statically by the real compiler, at first use by the reference semantics: same class
 		}
 		if model != goOut {
 			finding := ""
@@ -251,7 +340,24 @@ func c01Compare(e *Env, p *N, src, goOut, model string) {
 	for k := range Kinds(p) {
 		e.R.H("constructs", k)
 	}
+	calls := map[string]bool{}
+	Walk(p, func(y *N, _ []*N) {
+		if y.K == "call" && y.C[0].K == "id" && (y.C[0].S == "try" || y.C[0].S == "error") {
+			calls["call:"+y.C[0].S] = true
+		}
+	}, nil)
+	for k := range calls {
+		e.R.H("constructs", k)
+	}
 	gf := strings.Split(goOut, "\t")
+	if len(gf) > 2 && gf[2] != "-" {
+		so := UnHex(gf[2])
+		for _, w := range []string{"caught ", "handler ", "deferred "} {
+			if strings.Contains(so, w) {
+				e.R.H("printed_by", strings.TrimSpace(w))
+			}
+		}
+	}
 	mf := strings.Split(model, "\t")
 	e.R.H("go_outcome", gf[0]+":"+map[bool]string{true: gf[1], false: "value"}[gf[0] == "err"])
 	if len(mf) < 3 {
@@ -343,4 +449,173 @@ func c01CompareCode(e *Env, p *N, src, model string) {
 	}
 	m := e.O.Ask("C01", "compile", Sexp(small), c01Globals)
 	e.R.Mismatch(Src(small), g, strings.TrimPrefix(m, "ok\t"), "compiler.Compile vs C01.compileProg (bytecode, constants, names)")
+}
+
+// ---- directed programs for error(), try(), defer and pipes
+
+func nFunc(name string, params []string, body ...*N) *N {
+	ps := n("params")
+	for _, p := range params {
+		ps.C = append(ps.C, ns("param", p))
+	}
+	return ns("func", name, ps, nBlock(body...))
+}
+func nDefer(call *N) *N    { return n("defer", call) }
+func nPipe(xs ...*N) *N    { return n("pipe", xs...) }
+func nExpr(x *N) *N        { return n("expr", x) }
+func nRet(x *N) *N         { return n("return", x) }
+func nPrint(xs ...*N) *N   { return nExpr(nCall(nId("print"), xs...)) }
+func nRaise(msg string) *N { return nExpr(nCall(nId("error"), nStr(msg))) }
+func nTry(xs ...*N) *N     { return nCall(nId("try"), xs...) }
+func nThunk(body ...*N) *N { return nFunc("", nil, body...) }
+
+// c01DirectedErrors: evaluation order of defer, LIFO order, errors in and around deferred calls,
+// what try catches and what it does not, what the handler receives, pipes.
+func c01DirectedErrors() []*N {
+	lg := nExpr(nFunc("lg", []string{"v"}, nPrint(nId("v")), nRet(nId("v"))))
+	call := func(k int64) *N { return nCall(nId("lg"), nInt(k)) }
+	zero := nVar("z", nInt(0))
+	divz := nExpr(nInfix("/", nInt(1), nId("z"))) // a Go panic (integer divide by zero), recovered by vm.Run only
+	mk := func(stmts ...*N) *N { return n("prog", append([]*N{lg, zero}, stmts...)...) }
+	return []*N{
+		// defer: LIFO, after the return value is computed
+		mk(nExpr(nFunc("h", nil, nDefer(nCall(nId("print"), nStr("d1"))), nDefer(nCall(nId("print"), nStr("d2"))), nPrint(nStr("body")), nRet(call(7)))), nExpr(nCall(nId("h")))),
+		// callee and arguments are evaluated at the defer statement
+		mk(nExpr(nFunc("h", nil, nVar("x", nInt(1)), nDefer(nCall(nId("print"), nStr("x"), nId("x"), call(2))), nAssign("x", "=", nInt(5)), nDefer(nCall(nId("lg"), nInfix("+", nId("x"), call(3)))), nPrint(nStr("body"), nId("x")), nRet(nId("x")))),
+			nExpr(nCall(nId("h")))),
+		// a deferred closure runs after the return value is computed: it cannot change it
+		mk(nExpr(nFunc("h", nil, nVar("x", nInt(1)), nDefer(nCall(nThunk(nAssign("x", "=", nInt(5)), nPrint(nStr("d"), nId("x"))))), nRet(nId("x")))), nExpr(nCall(nId("h")))),
+		// defer inside a loop inside a function
+		mk(nExpr(nFunc("h", nil, n("for3", nVar("i", nInt(0)), nInfix("<", nId("i"), nInt(3)), ns("postfix", "i ++"), nBlock(nDefer(nCall(nId("print"), nId("i"))))), nRet(nInt(1)))), nExpr(nCall(nId("h")))),
+		// recursion: each activation has its own deferred calls
+		mk(nExpr(nFunc("r", []string{"k"}, nDefer(nCall(nId("print"), nStr("out"), nId("k"))), nExpr(n("if", nInfix(">", nId("k"), nInt(0)), nBlock(nExpr(nCall(nId("r"), nInfix("-", nId("k"), nInt(1))))))), nRet(nId("k")))), nExpr(nCall(nId("r"), nInt(2)))),
+		// deferred calls run when the function exits with an error; try catches it
+		mk(nExpr(nFunc("h", nil, nDefer(nCall(nId("print"), nStr("deferred"))), nRaise("boom"), nPrint(nStr("unreachable")))),
+			nVar("r", nTry(nId("h"), nFunc("", []string{"e"}, nPrint(nStr("handler"), nId("e")), nRet(nInt(7))))), nExpr(nId("r"))),
+		// … and when nothing catches it
+		mk(nExpr(nFunc("h", nil, nDefer(nCall(nId("print"), nStr("deferred"))), nRaise("boom"))), nExpr(nCall(nId("h"))), nPrint(nStr("unreachable"))),
+		// an error in a deferred call replaces the function's outcome; the other deferred calls still run
+		mk(nExpr(nFunc("h", nil, nDefer(nCall(nThunk(nPrint(nStr("d1"))))), nDefer(nCall(nThunk(nRaise("in defer")))), nDefer(nCall(nThunk(nPrint(nStr("d3"))))), nRet(nInt(1)))),
+			nVar("r", nTry(nId("h"), nFunc("", []string{"e"}, nPrint(nStr("handler"), nId("e")), nRet(nInt(7))))), nExpr(nId("r"))),
+		// error in the body, then an error in a deferred call: the later one wins
+		mk(nExpr(nTry(nThunk(nDefer(nCall(nThunk(nRaise("from defer")))), nRaise("from body")), nFunc("", []string{"e"}, nPrint(nId("e")), nRet(nInt(3)))))),
+		// two failing deferred calls: the one that runs last wins
+		mk(nExpr(nTry(nThunk(nDefer(nCall(nId("error"), nStr("first registered"))), nDefer(nCall(nId("error"), nStr("second registered"))), nRet(nInt(1))), nFunc("", []string{"e"}, nPrint(nId("e")), nRet(nInt(3)))))),
+		// try does not catch a Go panic; deferred calls on the way out still run
+		mk(nExpr(nFunc("h", nil, nDefer(nCall(nId("print"), nStr("deferred in h"))), divz, nRet(nInt(1)))),
+			nVar("r", nTry(nThunk(nExpr(nCall(nId("h")))), nFunc("", []string{"e"}, nPrint(nStr("handler")), nRet(nInt(5))))), nPrint(nStr("after"), nId("r"))),
+		// a panic inside a deferred call abandons the remaining deferred calls of that function
+		mk(nExpr(nFunc("h", nil, nDefer(nCall(nId("print"), nStr("a"))), nDefer(nCall(nThunk(divz))), nDefer(nCall(nId("print"), nStr("c"))), nRet(nInt(1)))), nExpr(nCall(nId("h")))),
+		// an error raised in a deferred call while a panic is under way does not replace the panic
+		mk(nExpr(nFunc("h", nil, nDefer(nCall(nId("print"), nStr("a"))), nDefer(nCall(nId("error"), nStr("late"))), divz)), nExpr(nTry(nId("h"), nInt(4)))),
+		// try lets fatal errors through: args errors of builtins and of function calls
+		mk(nExpr(nTry(nThunk(nExpr(nCall(nId("len"), nInt(1), nInt(2)))), nInt(5)))),
+		mk(nExpr(nTry(nFunc("", []string{"a", "b"}, nRet(nInt(1))), nInt(5)))),
+		mk(nExpr(nTry())),
+		mk(nExpr(nCall(nId("error")))),
+		// … and catches type errors, index errors, script errors
+		mk(nExpr(n("list", nTry(nThunk(nExpr(nInfix("+", nInt(1), nStr("a")))), nInt(3)), nTry(nThunk(nExpr(n("index", n("list", nInt(1)), nInt(4)))), nInt(4)), nTry(nThunk(nRaise("x")), nInt(5))))),
+		// the handler receives the error only if it declares a parameter
+		mk(nExpr(n("list", nTry(nThunk(nRaise("a")), nThunk(nRet(nInt(99)))), nTry(nThunk(nRaise("a")), nFunc("", []string{"e"}, nPrint(nStr("got"), nId("e")), nRet(nInt(1))))))),
+		// arguments that are not functions are returned as values; nil when nothing is left
+		mk(nExpr(n("list", nTry(nInt(1), nInt(2)), nTry(nThunk(nRaise("a")), nInt(2)), nTry(nThunk(nRaise("a"))), nTry(nThunk(nRet(call(6))), call(7))))),
+		// a chain of handlers: the error of a failing handler goes to the next one
+		mk(nVar("r", nTry(nThunk(nRaise("a")), nFunc("", []string{"e"}, nPrint(nStr("h1"), nId("e")), nRaise("b")), nFunc("", []string{"e"}, nPrint(nStr("h2"), nId("e")), nRet(nId("e"))))),
+			nExpr(n("list", nInfix("==", nId("r"), nId("r")), nId("r")))),
+		// builtins as handlers are called with the error
+		mk(nExpr(n("list", nTry(nThunk(nRaise("a")), nId("print"), nInt(4)), nTry(nThunk(nRaise("a")), nId("len")), nTry(nThunk(nRaise("a")), nId("len"), nInt(9))))),
+		// raising a caught error again keeps its class: a type error stays catchable, the value is an error value
+		mk(nVar("r", nTry(nThunk(nExpr(nTry(nThunk(nExpr(nInfix("+", nInt(1), nStr("a")))), nFunc("", []string{"e"}, nExpr(nCall(nId("error"), nId("e"))))))), nFunc("", []string{"e"}, nRet(nId("e"))))),
+			nExpr(n("list", nId("r")))),
+		mk(nVar("r", nTry(nThunk(nRaise("a")), nFunc("", []string{"e"}, nRet(nId("e"))))), nExpr(nCall(nId("error"), nId("r"))), nPrint(nStr("unreachable"))),
+		// try inside a deferred call; a failing builtin and a non-callable as deferred calls
+		mk(nExpr(nFunc("h", nil, nDefer(nTry(nThunk(nRaise("x")), nFunc("", []string{"e"}, nPrint(nStr("h"), nId("e"))))), nRet(nInt(2)))), nExpr(nCall(nId("h")))),
+		mk(nExpr(nFunc("h", nil, nDefer(nCall(nId("len"), nInt(1), nInt(2))), nPrint(nStr("body")), nRet(nInt(2)))), nExpr(nCall(nId("h")))),
+		mk(nExpr(nFunc("h", nil, nVar("x", nInt(5)), nDefer(nCall(nId("x"), nInt(1))), nPrint(nStr("body")), nRet(nInt(2)))), nExpr(nTry(nId("h"), nInt(8)))),
+		// defer at top level is rejected by the compiler
+		mk(nPrint(nStr("before")), nDefer(nCall(nId("print"), nStr("never")))),
+		// pipes: the piped value is the first argument; stages run left to right
+		mk(nExpr(nFunc("add", []string{"a", "b"}, nPrint(nStr("add"), nId("a"), nId("b")), nRet(nInfix("+", nInfix("*", nId("a"), nInt(10)), nId("b"))))),
+			nExpr(n("list", nPipe(call(2), nCall(nId("add"), nInt(3)), nCall(nId("add"), nInt(4))), nPipe(call(1), nId("lg"), nId("lg")), nPipe(n("list", nInt(1), nInt(2), nInt(3)), nId("len"))))),
+		mk(nExpr(nFunc("add", []string{"a", "b"}, nRet(nInfix("+", nInfix("*", nId("a"), nInt(10)), nId("b"))))),
+			nVar("fs", n("list", nId("lg"), nId("add"))), nExpr(nPipe(nPipe(call(1), n("index", nId("fs"), nInt(0))), nCall(n("index", nId("fs"), nInt(1)), nInt(7))))),
+		// an error inside a stage, caught
+		mk(nExpr(nTry(nThunk(nExpr(nPipe(nInt(1), nFunc("", []string{"a"}, nRaise("stage")), nId("lg")))), nFunc("", []string{"e"}, nPrint(nId("e")), nRet(nInt(0)))))),
+		// sets: distinct items in hash-key order (type name, int value, string value); in, len, ==, print
+		mk(nVar("u", n("set", call(3), call(1), nInt(2), nInt(1))), nPrint(nId("u")),
+			nExpr(n("list", nId("u"), nCall(nId("len"), nId("u")), n("in", nInt(2), nId("u")), n("in", nInt(5), nId("u")), n("notin", nStr("a"), nId("u")), nInfix("==", nId("u"), n("set", nInt(1), nInt(2), nInt(3))), nInfix("==", nId("u"), n("set", nInt(1), nInt(2)))))),
+		mk(nVar("u", n("set", nInt(1), nStr("a"), nBool(true), n("nil"), nStr("A"), nInt(-4))), nPrint(nId("u")), nExpr(n("list", nId("u"), n("in", n("list", nInt(1)), nId("u")), n("in", n("nil"), nId("u"))))),
+		// maps: one-entry literal, assignment of old and new keys, compound assignment, in, len, index, key error
+		mk(nVar("m", n("map", nStr("k"), call(1))), ns("setitem", "=", nId("m"), nStr("b"), call(2)), ns("setitem", "+=", nId("m"), nStr("k"), nInt(5)), ns("setitem", "=", nId("m"), nStr("a"), nInt(0)),
+			nPrint(nId("m")),
+			nExpr(n("list", nId("m"), nCall(nId("len"), nId("m")), n("in", nStr("k"), nId("m")), n("in", nStr("z"), nId("m")), n("in", nInt(1), nId("m")), n("index", nId("m"), nStr("b")),
+				nTry(nThunk(nExpr(n("index", nId("m"), nStr("zz")))), nInt(-1)), nTry(nThunk(nExpr(n("index", nId("m"), nInt(0)))), nInt(-2)), nInfix("==", nId("m"), n("map", nStr("k"), nInt(6)))))),
+		mk(nVar("m", n("map", nStr("k"), nInt(1))), ns("setitem", "+=", nId("m"), nStr("nope"), nInt(5))),
+		// strings: index and slice by rune
+		mk(nVar("s", nStr("héllo")), nExpr(n("list", n("index", nId("s"), nInt(1)), n("index", nId("s"), nInt(-1)), n("slice", nId("s"), nInt(1), nInt(3)), n("slice", nId("s"), n("none"), nInt(2)), n("slice", nId("s"), nInt(3), n("none")),
+			nCall(nId("len"), nId("s")), nTry(nThunk(nExpr(n("index", nId("s"), nInt(9)))), nInt(-1)), nTry(nThunk(nExpr(n("index", nId("s"), nStr("a")))), nInt(-2)), nTry(nThunk(nExpr(n("slice", nId("s"), nInt(4), nInt(2)))), nInt(-3))))),
+		// known deviation: a set literal with an unhashable item evaluates to an error VALUE; nothing is raised
+		mk(nVar("u", n("set", n("list", nInt(1)), nInt(2))), nPrint(nStr("still running")), nExpr(n("list", nId("u")))),
+		// known deviation: a variable declared in a loop body is one slot for all iterations
+		mk(nVar("fs", n("list")), n("for3", nVar("i", nInt(0)), nInfix("<", nId("i"), nInt(3)), ns("postfix", "i ++"),
+			nBlock(nVar("x", nInfix("*", nId("i"), nInt(10))), nExpr(ns("mcall", "append", nId("fs"), nThunk(nRet(nId("x"))))))),
+			nExpr(n("list", nCall(n("index", nId("fs"), nInt(0))), nCall(n("index", nId("fs"), nInt(1))), nCall(n("index", nId("fs"), nInt(2)))))),
+		// known deviation: a call nested in the arguments of a piped call is not called
+		mk(nExpr(nFunc("pair", []string{"a", "b"}, nRet(nInfix("+", nId("a"), nId("b"))))), nExpr(nPipe(nInt(5), nCall(nId("pair"), call(1))))),
+	}
+}
+
+func init() {
+	// dev-c01 <oracle> [seed n]: the directed programs (and n generated ones) through all four evaluations, verbosely
+	childCommands["dev-c01"] = func(args []string) {
+		o, err := StartOracle(args[0])
+		if err != nil {
+			fmt.Println(err)
+			return
+		}
+		defer o.Close()
+		progs := c01DirectedErrors()
+		if len(args) > 2 {
+			var seed uint64
+			var k int
+			fmt.Sscanf(args[1], "%d", &seed)
+			fmt.Sscanf(args[2], "%d", &k)
+			r := NewRNG(seed)
+			progs = nil
+			for i := 0; i < k; i++ {
+				progs = append(progs, GenProgram(r.Fork(), c01Opts(r.Fork(), true)))
+			}
+		}
+		bad := 0
+		for i, p := range progs {
+			src := Src(p)
+			goOut := goOutcome(EvalSrc(src, 5*time.Second))
+			sem := o.Ask("C01", "eval", Sexp(p))
+			vm := o.Ask("C01", "vmrun", Sexp(p), c01Globals)
+			cm := o.Ask("C01", "compile", Sexp(p), c01Globals)
+			code, cerr := CompileSrc(src)
+			goCode := "fail"
+			if cerr == nil {
+				goCode = "ok\t" + CodeExport(code)
+			}
+			if strings.HasPrefix(cm, "fail") {
+				cm = "fail"
+			}
+			skip := func(m string) bool { return strings.HasPrefix(m, "unsupported") || strings.HasPrefix(m, "oof") }
+			same := (goOut == sem || skip(sem)) && (goOut == vm || skip(vm)) && goCode == cm
+			if strings.HasPrefix(goOut, "err\tcompile") && strings.HasPrefix(sem, "err\tcompile") && goOut == vm && goCode == cm {
+				same = true
+			}
+			if !same {
+				bad++
+			}
+			if !same || len(args) <= 2 {
+				fmt.Printf("===== #%d %v\n%s  go : %q\n  sem: %q\n  vm : %q\n", i, same, src, goOut, sem, vm)
+				if goCode != cm {
+					fmt.Printf("  go code : %s\n  lean    : %s\n", goCode, cm)
+				}
+			}
+		}
+		fmt.Println("differing:", bad, "of", len(progs))
+	}
 }
